@@ -236,6 +236,26 @@ def impl(case):
         return canon(x)
 
     first, problems, log = {}, [], []
+    if case.get('junction'):
+        # the same frames, joined into one trajectory, are sampled first; the sampler for the two separate
+        # trajectories must afterwards still never take the step that exists only across the boundary
+        from msmhelper.msm import timescales as ts
+        x, z = case['junction']
+        joined = [np.concatenate(trajs)]
+        for fn in (lambda d, n: ts.propagate_MCMC(d, 1, n), ):
+            _reseed(case['seed'])
+            fn(joined, 50)
+            _reseed(case['seed'])
+            chain = [int(v) for v in fn(trajs, 4000)]
+            Tm, st = mh.msm.estimate_markov_model(trajs, 1)
+            st = [int(v) for v in st]
+            if Tm[st.index(x), st.index(z)] == 0 and any(a == x and b == z for a, b in zip(chain, chain[1:])):
+                problems.append('after sampling the joined frames, propagate_MCMC on the two trajectories takes the step %d>%d '
+                                'that is observed only across their boundary' % (x, z))
+            _reseed(case['seed'])
+            chain2 = [int(v) for v in fn(trajs, 4000)]
+            if chain2 != chain:
+                problems.append('propagate_MCMC is not reproducible from the generator state')
     for step in case['hist']:
         before = snap()
         if step[0] == 'reseed':
@@ -261,26 +281,6 @@ def impl(case):
         if after != before:
             problems.append('call %s modified an argument: %s' % (name, [k for k in before if before[k] != after[k]]))
         log.append(name)
-    if case.get('junction'):
-        # the same frames, joined into one trajectory, are sampled first; the sampler for the two separate
-        # trajectories must afterwards still never take the step that exists only across the boundary
-        from msmhelper.msm import timescales as ts
-        x, z = case['junction']
-        joined = [np.concatenate(trajs)]
-        for fn in (lambda d, n: ts.propagate_MCMC(d, 1, n), ):
-            _reseed(case['seed'])
-            fn(joined, 50)
-            _reseed(case['seed'])
-            chain = [int(v) for v in fn(trajs, 4000)]
-            Tm, st = mh.msm.estimate_markov_model(trajs, 1)
-            st = [int(v) for v in st]
-            if Tm[st.index(x), st.index(z)] == 0 and any(a == x and b == z for a, b in zip(chain, chain[1:])):
-                problems.append('after sampling the joined frames, propagate_MCMC on the two trajectories takes the step %d>%d '
-                                'that is observed only across their boundary' % (x, z))
-            _reseed(case['seed'])
-            chain2 = [int(v) for v in fn(trajs, 4000)]
-            if chain2 != chain:
-                problems.append('propagate_MCMC is not reproducible from the generator state')
     return {'problems': problems, 'calls': log}
 
 
